@@ -138,6 +138,7 @@ def run_tlc(ctx, module_path, cfg_path, workers=8, timeout=600, env=None, simula
     r = TlcResult()
     t0 = time.time()
     ctx.tlc_cmds.append(" ".join(cmd[cmd.index("tlc2.TLC"):]))
+    slot = _acquire_tlc_slot()
     try:
         for attempt in range(3):
             p = subprocess.run(cmd, cwd=mdir, env=e, stdout=subprocess.PIPE, stderr=subprocess.STDOUT, text=True, timeout=timeout)
@@ -150,6 +151,8 @@ def run_tlc(ctx, module_path, cfg_path, workers=8, timeout=600, env=None, simula
         r.kind = "timeout"
         r.out = (ex.stdout.decode() if isinstance(ex.stdout, bytes) else (ex.stdout or ""))
         r.rc = -1
+    finally:
+        _release_tlc_slot(slot)
     r.wall = time.time() - t0
     open(ctx.path(f"tlc_{tag}_{len(ctx.tlc_cmds)}.log"), "w").write(r.out)
     shutil.rmtree(meta, ignore_errors=True)
@@ -176,6 +179,37 @@ def run_tlc(ctx, module_path, cfg_path, workers=8, timeout=600, env=None, simula
         # rc 10 = assumption, 75.. = errors; evaluation errors inside an invariant come as 75/255 -> broken
         r.kind = "error"
     return r
+
+
+# ----------------------------------------------------------------------------------------------------------
+# Machine-wide throttle: at most TLC_SLOTS TLC JVMs run at the same time (across all checks / workers sharing the
+# sandbox), otherwise a dozen 16-worker JVMs exhaust the 62 GB and the kernel kills them.
+# ----------------------------------------------------------------------------------------------------------
+TLC_SLOTS = int(os.environ.get("VERIF_TLC_SLOTS", "7"))
+_SLOT_DIR = "/verif/out/.tlcslots"
+
+
+def _acquire_tlc_slot():
+    import fcntl
+    os.makedirs(_SLOT_DIR, exist_ok=True)
+    while True:
+        for i in range(TLC_SLOTS):
+            f = open(os.path.join(_SLOT_DIR, f"slot{i}.lock"), "w")
+            try:
+                fcntl.flock(f, fcntl.LOCK_EX | fcntl.LOCK_NB)
+                return f
+            except OSError:
+                f.close()
+        time.sleep(0.5)
+
+
+def _release_tlc_slot(f):
+    import fcntl
+    try:
+        fcntl.flock(f, fcntl.LOCK_UN)
+        f.close()
+    except Exception:
+        pass
 
 
 _spec_dirs = None
